@@ -43,6 +43,8 @@ type copyState struct {
 	atRet2   map[string]bool // RefTgt == 2: what the second layout reached (below its entries) when the copy returned nil
 	requests int
 	late     int // events observed after the copy had returned
+	cancel   context.CancelFunc
+	blobReqs int
 }
 
 // candidate is a violation observed from inside copy number `copy`; it is classified when all copies have returned.
@@ -174,6 +176,11 @@ func setupB(c *CaseB) (*envB, error) {
 	for i := range c.Copies {
 		g.PutRegistry(h, copyRepo(i), !c.RefAPI, nil)
 		e.copies = append(e.copies, &copyState{seen: map[string]bool{}})
+		if f := c.Copies[i].Fault; f != nil && f.Kind == "wrong-bytes" {
+			// this copy's own repository serves other bytes for one blob: the push of it fails on the digest, part-way
+			nN := len(g.Nodes)
+			corruptBlob(e.m, copyRepo(i), g, ((c.Copies[i].Node%nN)+nN)%nN, f.Nth)
+		}
 	}
 	pre := c.Pre
 	if err := writePre(g, e.tgt, pre, nil, false); err != nil {
@@ -228,6 +235,31 @@ func (e *envB) onArrive(en *rm.Entry) {
 		return
 	}
 	e.observe(i, "its source request "+en.Method+" "+en.Path, false)
+}
+
+// onDone implements the fault kind cancel: the context of copy i ends right after its Nth blob request was answered, so
+// the body breaks off while the blob is being written.
+func (e *envB) onDone(en *rm.Entry) {
+	if en.Host != srcHost || en.Class != "blob-get" || !strings.HasPrefix(en.Repo, "proj/c") {
+		return
+	}
+	var i int
+	if _, err := fmt.Sscanf(en.Repo, "proj/c%d", &i); err != nil || i < 0 || i >= len(e.copies) {
+		return
+	}
+	f := e.c.Copies[i].Fault
+	if f == nil || f.Kind != "cancel" {
+		return
+	}
+	e.mu.Lock()
+	cs := e.copies[i]
+	hit := cs.blobReqs == f.Nth%3
+	cs.blobReqs++
+	cancel := cs.cancel
+	e.mu.Unlock()
+	if hit && cancel != nil {
+		cancel()
+	}
 }
 
 // callback is the progress callback of copy i: every event but "active" is
@@ -384,6 +416,9 @@ func (e *envB) runCopy(ctx context.Context, i int) {
 	}
 	e.mu.Unlock()
 	cctx, cancel := context.WithTimeout(ctx, 60*time.Second)
+	e.mu.Lock()
+	e.copies[i].cancel = cancel
+	e.mu.Unlock()
 	opts := append(copyOpts(cp.Platforms, cp.Referrers, cp.DigestTags, cp.Force, false, false), regclient.ImageWithCallback(e.callback(i)))
 	if cp.Referrers {
 		mk := func(s string) ref.Ref {
@@ -476,6 +511,7 @@ func checkB(cs Case, ev *evid.Collector) *evid.Violation {
 	}
 	e.m.Lock()
 	e.m.OnArrive = e.onArrive
+	e.m.OnDone = e.onDone
 	e.m.Unlock()
 
 	ctx := context.Background()
@@ -538,6 +574,7 @@ func checkB(cs Case, ev *evid.Collector) *evid.Violation {
 	}
 	e.m.Lock()
 	e.m.OnArrive = nil
+	e.m.OnDone = nil
 	e.m.Unlock()
 
 	classes := []string{"B:pre:" + c.Pre, fmt.Sprintf("B:workers:%d", len(c.Workers)), fmt.Sprintf("B:copies:%d", len(c.Copies))}
@@ -733,6 +770,8 @@ func checkB(cs Case, ev *evid.Collector) *evid.Violation {
 				leftDig = append(leftDig, k)
 			}
 		}
+		// (the harness plants nothing in Part B: whatever else lies anywhere under the layout was left by the client)
+		leftTmp = append(leftTmp, sortedKeys(end.other)...)
 		if len(leftDig)+len(leftTmp) > 0 {
 			if v := report(evid.V("final-close-did-not-collect", "all %d copies returned (%d failed) and the layout was modified, but Close afterwards left %d unreachable file(s) %v and %d temporary file(s) %v under blobs/ (a GC lock that was not released keeps the collector off for good)",
 				len(c.Copies), nFail, len(leftDig), head(leftDig, 3), len(leftTmp), head(leftTmp, 3))); v != nil {
@@ -802,6 +841,7 @@ func checkB(cs Case, ev *evid.Collector) *evid.Violation {
 				leftDig = append(leftDig, k)
 			}
 		}
+		leftTmp = append(leftTmp, sortedKeys(end2.other)...)
 		if len(leftDig)+len(leftTmp) > 0 {
 			if v := report(evid.V("final-close-did-not-collect-referrer-target-layout", "all %d copies returned and a blob was pushed into the second layout (the target of ImageWithReferrerTgt), but Close of it afterwards left %d unreachable file(s) %v and %d temporary file(s) %v under blobs/ (a GC lock on that layout that was never released keeps its collector off for good)",
 				len(c.Copies), len(leftDig), head(leftDig, 3), len(leftTmp), head(leftTmp, 3))); v != nil {
